@@ -1,5 +1,6 @@
 import CsVerif.Gen.PyUtils
-import CsVerif.Lemmas.C20
+import CsVerif.Props.C20
+import CsVerif.Lemmas.C20Gen
 /-!
 C20 — the tie between the source text and the model, by translation.
 
@@ -9,6 +10,7 @@ C20 — the tie between the source text and the model, by translation.
 hand-written model of `Model/C20.lean` computes — so every theorem of `Props/C20.lean` is a theorem about the function
 text as it stands now, and an edit of one of these functions that changes its meaning breaks the corresponding proof here.
 (`PyRt` = the Python semantics of the operations the translation uses, `lean/CsVerif/Model/PyRt.lean`.)
+Helper lemmas: `Lemmas/C20Gen.lean`.
 -/
 namespace C20Gen
 open PyRt
@@ -17,5 +19,136 @@ open PyRt
 def orderStr : C20.Order → Str
   | .little => s "little"
   | .big => s "big"
+
+/-! ### xor, NetBIOS -/
+
+/-- `utils.xor` never raises and is the byte-wise model (all-zero / empty key: identity) -/
+theorem gen_xor (data key : Bytes) : Gen.PyUtils.xor data key = .ok (C20.xor data key) := by
+  rw [xor_eq_xorBig, C20.xorBig_eq_xor]
+
+theorem gen_netbios_encode (data : Bytes) (off : Int) :
+    Gen.PyUtils.netbios_encode data off = C20.netbiosEncode data off :=
+  netbios_encode_eq data off
+
+theorem gen_netbios_decode (data : Bytes) (off : Int) :
+    Gen.PyUtils.netbios_decode data off = C20.netbiosDecode data off :=
+  netbios_decode_eq data off
+
+/-! ### unpack / pack -/
+
+theorem gen_unpack (data : Bytes) (size : Option Int) (o : C20.Order) (signed : Bool) :
+    Gen.PyUtils.unpack data size (orderStr o) signed = .ok (C20.unpack data size o signed) := by
+  have ho : orderStr o = ordS o := by cases o <;> rfl
+  rw [ho]; exact unpack_eq data size o signed
+
+theorem gen_unpack_bad_order (data : Bytes) (size : Option Int) (order : Str) (signed : Bool)
+    (h : order ≠ s "little" ∧ order ≠ s "big") : Gen.PyUtils.unpack data size order signed = .error .valueError :=
+  unpack_bad data size order signed h
+
+theorem gen_pack (n : Int) (size : Option Nat) (o : C20.Order) (signed : Bool) :
+    Gen.PyUtils.pack n (size.map Int.ofNat) (orderStr o) signed = C20.pack n size o signed := by
+  have ho : orderStr o = ordS o := by cases o <;> rfl
+  rw [ho]; exact pack_eq n size o signed
+
+theorem gen_pack_negative_size (n k : Int) (hk : k < 0) (order : Str) (signed : Bool) :
+    Gen.PyUtils.pack n (some k) order signed = .error .valueError :=
+  pack_neg n k hk order signed
+
+theorem gen_pack_bad_order (n : Int) (size : Option Int) (order : Str) (signed : Bool)
+    (h : order ≠ s "little" ∧ order ≠ s "big") : Gen.PyUtils.pack n size order signed = .error .valueError :=
+  pack_bad n size order signed h
+
+/-! ### checksum8, stager classifiers -/
+
+theorem gen_checksum8 (t : Str) : Gen.PyUtils.checksum8 t = .ok ((C20.checksum8 t : Nat) : Int) :=
+  checksum8_eq t
+
+theorem gen_is_stager_x86 (t : Str) : Gen.PyUtils.is_stager_x86 t = .ok (C20.isStagerX86 t) :=
+  is_stager_x86_eq t
+
+theorem gen_is_stager_x64 (t : Str) : Gen.PyUtils.is_stager_x64 t = .ok (C20.isStagerX64 t) :=
+  is_stager_x64_eq t
+
+/-! ### the `functools.partial` objects -/
+
+theorem gen_unpack_be (d : Bytes) (size : Option Int) (sg : Bool) :
+    Gen.PyUtils.unpack_be d size sg = .ok (C20.unpack d size .big sg) := gen_unpack d size .big sg
+
+theorem gen_pack_be (n : Int) (size : Option Nat) (sg : Bool) :
+    Gen.PyUtils.pack_be n (size.map Int.ofNat) sg = C20.pack n size .big sg := gen_pack n size .big sg
+
+theorem gen_u8 (d : Bytes) (o : C20.Order) (sg : Bool) :
+    Gen.PyUtils.u8 d (orderStr o) sg = .ok (C20.unpack d (some 1) o sg) := gen_unpack d (some 1) o sg
+
+theorem gen_u16 (d : Bytes) (o : C20.Order) (sg : Bool) :
+    Gen.PyUtils.u16 d (orderStr o) sg = .ok (C20.unpack d (some 2) o sg) := gen_unpack d (some 2) o sg
+
+theorem gen_u32 (d : Bytes) (o : C20.Order) (sg : Bool) :
+    Gen.PyUtils.u32 d (orderStr o) sg = .ok (C20.unpack d (some 4) o sg) := gen_unpack d (some 4) o sg
+
+theorem gen_u64 (d : Bytes) (o : C20.Order) (sg : Bool) :
+    Gen.PyUtils.u64 d (orderStr o) sg = .ok (C20.unpack d (some 8) o sg) := gen_unpack d (some 8) o sg
+
+theorem gen_u16be (d : Bytes) (sg : Bool) : Gen.PyUtils.u16be d sg = .ok (C20.unpack d (some 2) .big sg) :=
+  gen_unpack d (some 2) .big sg
+
+theorem gen_u32be (d : Bytes) (sg : Bool) : Gen.PyUtils.u32be d sg = .ok (C20.unpack d (some 4) .big sg) :=
+  gen_unpack d (some 4) .big sg
+
+theorem gen_u64be (d : Bytes) (sg : Bool) : Gen.PyUtils.u64be d sg = .ok (C20.unpack d (some 8) .big sg) :=
+  gen_unpack d (some 8) .big sg
+
+theorem gen_p8 (n : Int) (o : C20.Order) (sg : Bool) :
+    Gen.PyUtils.p8 n (orderStr o) sg = C20.pack n (some 1) o sg := gen_pack n (some 1) o sg
+
+theorem gen_p16 (n : Int) (o : C20.Order) (sg : Bool) :
+    Gen.PyUtils.p16 n (orderStr o) sg = C20.pack n (some 2) o sg := gen_pack n (some 2) o sg
+
+theorem gen_p32 (n : Int) (o : C20.Order) (sg : Bool) :
+    Gen.PyUtils.p32 n (orderStr o) sg = C20.pack n (some 4) o sg := gen_pack n (some 4) o sg
+
+theorem gen_p64 (n : Int) (o : C20.Order) (sg : Bool) :
+    Gen.PyUtils.p64 n (orderStr o) sg = C20.pack n (some 8) o sg := gen_pack n (some 8) o sg
+
+theorem gen_p16be (n : Int) (sg : Bool) : Gen.PyUtils.p16be n sg = C20.pack n (some 2) .big sg :=
+  gen_pack n (some 2) .big sg
+
+theorem gen_p32be (n : Int) (sg : Bool) : Gen.PyUtils.p32be n sg = C20.pack n (some 4) .big sg :=
+  gen_pack n (some 4) .big sg
+
+theorem gen_p64be (n : Int) (sg : Bool) : Gen.PyUtils.p64be n sg = C20.pack n (some 8) .big sg :=
+  gen_pack n (some 8) .big sg
+
+/-- the default call `u32(d)` / `p32(n)` of the library: byteorder `"little"`, unsigned -/
+theorem gen_u32_default (d : Bytes) : Gen.PyUtils.u32 d (s "little") false = .ok (C20.unpack d (some 4) .little false) :=
+  gen_u32 d .little false
+
+theorem gen_p32_default (n : Int) : Gen.PyUtils.p32 n (s "little") false = C20.pack n (some 4) .little false :=
+  gen_p32 n .little false
+
+/-! ### Non-vacuity: the translated definitions evaluated on concrete inputs -/
+
+example : Gen.PyUtils.xor [1, 2, 3] [255] = .ok [254, 253, 252] := by decide
+example : Gen.PyUtils.xor [1, 2, 3] [0, 0] = .ok [1, 2, 3] := by decide
+example : Gen.PyUtils.xor [1, 2, 3, 4, 5] [16, 32] = .ok [17, 34, 19, 36, 21] := by decide
+example : Gen.PyUtils.netbios_encode [0x41, 0xff] 65 = .ok [69, 66, 80, 80] := by decide
+example : Gen.PyUtils.netbios_encode [0xff] 241 = .error .valueError := by decide
+example : Gen.PyUtils.netbios_decode [69, 66, 80, 80] 65 = .ok [0x41, 0xff] := by decide
+example : Gen.PyUtils.netbios_decode [69, 66, 80] 65 = .error .indexError := by decide
+example : Gen.PyUtils.u16be [0x12, 0x34] false = .ok 0x1234 := by decide
+example : Gen.PyUtils.u16 [0x12, 0x34, 0x56] (s "little") false = .ok 0x3412 := by decide
+example : Gen.PyUtils.u8 [0xff] (s "little") true = .ok (-1) := by decide
+example : Gen.PyUtils.unpack [1, 2, 3] (some (-1)) (s "big") false = .ok 0x0102 := by decide
+example : Gen.PyUtils.unpack [1] none (s "middle") false = .error .valueError := by decide
+example : Gen.PyUtils.p32be 0x01020304 false = .ok [1, 2, 3, 4] := by decide
+example : Gen.PyUtils.p16 (-2) (s "little") true = .ok [0xfe, 0xff] := by decide
+example : Gen.PyUtils.p8 256 (s "little") false = .error .overflowError := by decide
+example : Gen.PyUtils.pack 0x1234 none (s "little") false = .ok [0x34, 0x12] := by decide
+example : Gen.PyUtils.pack 1 (some (-1)) (s "little") false = .error .valueError := by decide
+example : Gen.PyUtils.checksum8 (s "/zzh") = .ok 92 := by decide
+example : Gen.PyUtils.is_stager_x86 (s "/zzh") = .ok true := by decide
+example : Gen.PyUtils.is_stager_x64 (s "/zz90") = .ok true := by decide
+example : Gen.PyUtils.is_stager_x64 (s "/zzh") = .ok false := by decide
+example : (s "middle" ≠ s "little" ∧ s "middle" ≠ s "big") := by decide
 
 end C20Gen
